@@ -123,7 +123,7 @@ def run(ctx):
         ctx.violation({"obligation": "build of harness/c14 against the library", "log": blog[-3000:]}, False,
                       "tie lost: the C14 harness no longer builds against the library")
         return
-    n = 560 if ctx.tier == "quick" else 6000
+    n = 400 if ctx.tier == "quick" else 6000
     bad, incons = corr(ctx, binary, n)
     h = hunt(ctx, binary, bad + incons)
     ctx.cov["hunt"] = {"tried": h.get("tried"), "failures": len(h.get("failures", []))}
